@@ -10,6 +10,9 @@ CONSTANTS
   SendErrDelivered = FALSE
   AllowRdFail = TRUE
   AllowWrFail = TRUE
+  AllowCancel = FALSE
+  ChanCap1 = TRUE
+  KeepSlotOnCancel = TRUE
 INVARIANTS Inv_C03_OwnReply Inv_C03_DistinctIds Inv_C03_Framing Inv_C04_NotifiedOnce
 PROPERTIES Live_AllReturn
 CHECK_DEADLOCK TRUE
